@@ -416,6 +416,7 @@ def obsThis : ThisObs → String
   | .global => "global"
   | .self => "self"
   | .boxed v => "boxed:" ++ obsView v
+  | .instance => "instance"
 
 def obsCall (o : ThisObs × List View) : String := obsThis o.1 ++ "|" ++ ";".intercalate (o.2.map obsView)
 
@@ -430,7 +431,28 @@ def path? (kind mem this : String) : Option Path :=
   | "ocall" => some .objectCall
   | "gcall" => some (.ottoCallNil m)
   | "gcallT" => (goVal? this).map fun g => .ottoCallThis m g
+  | "gnew" => if this = "-" then some (.ottoCallNew none) else (goVal? this).map fun g => .ottoCallNew (some g)
   | _ => none
+
+def exit? : String → Option Exit
+  | "ret" => some .ret | "throwTypeError" => some .throwTypeError
+  | "throwOnce" => some .throwOnce | "throwValue" => some .throwValue | _ => none
+
+def obsArgs (vs : List View) : String := ";".intercalate (vs.map obsView)
+
+def obsOutcome : Outcome → String
+  | .ret t vs => "ret:" ++ obsThis t ++ "|" ++ obsArgs vs
+  | .retObject => "ret:object"
+  | .throwErr cls t n => "throw:" ++ cls ++ ":t:" ++ obsThis t ++ ":" ++ toString n
+  | .throwValue t => "throw:value:s:" ++ obsThis t
+
+/-- outcome / number of invocations / the `this` of each invocation -/
+def obsRun (r : Run) : String :=
+  obsOutcome r.outcome ++ "/" ++ toString r.invocations.length ++ "/" ++ ",".intercalate (r.invocations.map obsThis)
+
+def callxOp (p : Path) (b : Exit) (args : List GoVal) : String :=
+  let lang := resOut obsRun (Spec.langRun env p b args)
+  reply (resOut obsRun (apiRun env p b args) ++ "#" ++ lang) (lang ++ "#" ++ lang) "-"
 
 def callOp (p : Path) (args : List GoVal) : String :=
   let lang := resOut obsCall (Spec.langCall env p args)
@@ -447,6 +469,9 @@ def handle (ws : List String) : String :=
   | ["jsh", op, root, heap] => match hval? root, heap? heap with
     | some v, some H => (jshOp op H v).getD "bad-op"
     | _, _ => "bad-op"
+  | "callx" :: kind :: mem :: this :: ex :: args => match path? kind mem this, exit? ex, goVals? args with
+    | some p, some b, some gs => callxOp p b gs
+    | _, _, _ => "bad-op"
   | "call" :: kind :: mem :: this :: args => match path? kind mem this, goVals? args with
     | some p, some gs => callOp p gs
     | _, _ => "bad-op"
